@@ -4,7 +4,7 @@
     owned by the array, dropped with the iterator, or leaked; none twice. *)
 From Coq Require Import Permutation.
 From TD Require Import Base.Prelude Spec.Grid Spec.Inv Model.Iter Model.Owned
-  Proofs.ListLemmas Proofs.InsertRow Proofs.InsertCol Proofs.HistInv.
+  Proofs.ListLemmas Proofs.InsertRow Proofs.InsertCol Proofs.HistInv Proofs.RemoveCol.
 
 Section Any.
 Context {A : Type}.
@@ -154,6 +154,78 @@ Proof.
     + rewrite Hfull. eexists. split; [reflexivity|]. apply Hok. destruct (nc =? 0); reflexivity.
     + rewrite Hpre. eexists. split; [reflexivity|exact Hfail].
   - rewrite Hfull. eexists. split; [reflexivity|]. apply Hok. destruct (nc =? 0); reflexivity.
+Qed.
+
+(** * insert_col with ANY iterator script *)
+Lemma accounted_col_fail (t : toodee A) (s : iter_script A) k : accounted t s (col_failres t s k).
+Proof.
+  unfold accounted, col_failres, rev_unconsumed. cbn [o_td o_dropped o_leaked data app].
+  eapply Permutation_trans; [apply Permutation_app_comm|]. rewrite <- app_assoc, firstn_skipn.
+  apply Permutation_app_head. apply Permutation_sym, Permutation_rev.
+Qed.
+
+Theorem insert_col_any dbg cap spare (t : toodee A) (index : N) (s : iter_script A) :
+  Inv t -> exists r, insert_col dbg cap spare t index s = Ok r /\ Inv (o_td r) /\ accounted t s r.
+Proof.
+  intros Hi. pose proof Hi as [Hl Hz].
+  assert (Hrej : Inv (o_td (mkOp t false (items s) [])) /\ accounted t s (mkOp t false (items s) [])).
+  { split; [exact Hi|]. unfold accounted. cbn. rewrite app_nil_r. apply Permutation_refl. }
+  set (R := N.to_nat (claimed s)).
+  assert (Hcl : claimed s = N.of_nat R) by (unfold R; rewrite N2Nat.id; reflexivity).
+  destruct (N.leb_spec index (N.of_nat (num_cols t))) as [Hidx|Hidx].
+  2:{ eexists. split; [|exact Hrej]. unfold insert_col.
+      destruct (N.leb_spec index (N.of_nat (num_cols t))); [lia|reflexivity]. }
+  assert (Hgo : (num_cols t = 0 \/ R = num_rows t) -> (N.of_nat (length (data t)) + N.of_nat R <= cap)%N ->
+                exists r, insert_col dbg cap spare t index s = Ok r /\ Inv (o_td r) /\ accounted t s r).
+  { intros Hw Hcap. replace index with (N.of_nat (N.to_nat index)) by lia.
+    destruct (insert_col_gen dbg cap spare t (N.to_nat index) s R Hi ltac:(lia) Hcl Hw Hcap)
+      as [res [E [[_ [k [Hk ->]]]|[[Hy _] [d' [-> [Hld Hn]]]]]]]; (eexists; split; [exact E|]).
+    - split; [split; cbn; [reflexivity|tauto]|apply accounted_col_fail].
+    - set (l := rev (items s)) in *. set (xs' := rev (firstn R l)).
+      assert (HlR : R <= length l).
+      { destruct R as [|R']; [lia|]. destruct (Hy R' ltac:(lia)) as [e He]. apply snb_yield_nth in He.
+        fold l in He. assert (R' < length l) by (apply nth_error_Some; congruence). lia. }
+      assert (Hxl : length xs' = R) by (unfold xs'; rewrite rev_length, firstn_length; lia).
+      assert (Hdata : length (data t) = num_cols t * length xs').
+      { rewrite Hxl, Hl. destruct Hw as [H0|Hx]; [rewrite H0; lia|rewrite Hx; reflexivity]. }
+      assert (Hn' : forall r c, r < length xs' -> c <= num_cols t ->
+                nth_error d' (r * (num_cols t + 1) + c) = fv (data t) xs' (num_cols t) (N.to_nat index) r c).
+      { intros r c Hr Hc. rewrite Hxl in Hr. rewrite (Hn r c Hr Hc). unfold fv, fvg.
+        destruct (c <? N.to_nat index); [reflexivity|]. destruct (c =? N.to_nat index); [|reflexivity].
+        unfold xs'. rewrite nth_error_rev_local by (rewrite firstn_length; lia).
+        rewrite firstn_length, Nat.min_l by lia. rewrite nth_error_firstn.
+        destruct (Nat.ltb_spec (R - 1 - r) R); [reflexivity|lia]. }
+      assert (Hld' : length d' = (num_cols t + 1) * length xs') by (rewrite Hxl; exact Hld).
+      pose proof (insert_col_rows (data t) xs' d' (num_cols t) (N.to_nat index) ltac:(lia) Hdata Hld' Hn') as Hrows.
+      destruct (chunks_uniform (num_cols t) (length xs') (data t) Hdata) as [Hu Hcu].
+      assert (Hperm : Permutation d' (data t ++ xs')).
+      { rewrite Hrows. eapply Permutation_trans.
+        - apply insert_cols_perm; [lia|]. eapply Forall_impl; [|exact Hu]. intros row Hrow. cbn beta in Hrow. lia.
+        - rewrite (concat_chunks (num_cols t) (length xs') (data t) Hdata). apply Permutation_refl. }
+      split.
+      + destruct (Nat.ltb_spec 0 R) as [HR|HR]; cbn [o_td]; split; cbn [data num_cols num_rows].
+        * lia.
+        * lia.
+        * assert (HR0 : R = 0) by lia. rewrite HR0 in Hld. lia.
+        * tauto.
+      + unfold accounted, rev_unconsumed. fold l. cbn [o_dropped o_leaked]. rewrite app_nil_r.
+        assert (Hd : data (o_td (mkOp (if 0 <? R then mkTD d' R (num_cols t + 1) else mkTD d' 0 0) true (skipn R l) [])) = d')
+          by (destruct (0 <? R); reflexivity).
+        rewrite Hd. eapply Permutation_trans; [apply Permutation_app_tail; exact Hperm|].
+        rewrite <- app_assoc. apply Permutation_app_head.
+        eapply Permutation_trans; [apply Permutation_app_tail; unfold xs'; apply Permutation_sym, Permutation_rev|].
+        rewrite firstn_skipn. apply Permutation_sym, Permutation_rev. }
+  unfold insert_col in *.
+  destruct (N.leb_spec index (N.of_nat (num_cols t))); [|lia]. cbn [negb] in *.
+  destruct (Nat.eqb_spec (num_cols t) 0) as [Hc0|Hcn].
+  - unfold reserve_ok in *. destruct (N.leb_spec (N.of_nat (length (data t)) + claimed s) cap) as [Hcap|Hcap]; cbn [negb] in *.
+    + apply Hgo; [left; exact Hc0|lia].
+    + eexists. split; [reflexivity|exact Hrej].
+  - destruct (N.eqb_spec (N.of_nat (num_rows t)) (claimed s)) as [Hw|Hw].
+    + unfold reserve_ok in *. destruct (N.leb_spec (N.of_nat (length (data t)) + claimed s) cap) as [Hcap|Hcap]; cbn [negb] in *.
+      * apply Hgo; [right; lia|lia].
+      * eexists. split; [reflexivity|exact Hrej].
+    + eexists. split; [reflexivity|exact Hrej].
 Qed.
 
 End Any.
